@@ -23,7 +23,7 @@ RULE = ('seeded worlds biased to many chunks / segments and channels absent from
         '(interleaved / DAQmx) of the chunks overlapping the request + the lead-in (28 bytes; today only its 4 tag bytes '
         'are read) of each segment between the first and last segment holding requested data. distinct = (segment shapes, op kinds); non-trivial = '
         'a non-empty window over a channel with >= 2 chunks was monitored')
-EXPECTED_PROBES = ['repeat-index-same-chunk', 'window-subset-of-chunks', 'interleaved-window', 'string-window', 'daqmx-window']
+EXPECTED_PROBES = ['index-from-another-thread', 'repeat-index-same-chunk', 'window-subset-of-chunks', 'interleaved-window', 'string-window', 'daqmx-window']
 
 
 def opts(tier):
@@ -74,7 +74,9 @@ def generate(rng, tier):
                 for (k, c, first, cnt, _e, _ce) in ch.prov:
                     if first <= i < first + cnt:
                         j = rng.randint(first, first + cnt - 1)
-                        out.append({'op': 'index', 'ch': r['ch'], 'i': j if rng.random() < 0.7 else j - n})
+                        out.append({'op': 'index', 'ch': r['ch'], 'i': j if rng.random() < 0.7 else j - n,
+                                    # issued from another thread that runs to completion (no concurrency: one after the other)
+                                    'thread': rng.random() < 0.3})
     cut = None
     last = w.segs[-1]
     if (last.layout != 'daqmx' and last.end - last.data_pos > 1 and not spec['segments'][-1].get('short_last')
@@ -154,6 +156,24 @@ def outside(reads, iv):
     return bad, first
 
 
+def in_thread(fn):
+    """Runs fn in a fresh thread and waits for it: the calling thread is idle meanwhile, so nothing is concurrent."""
+    import threading
+    box = {}
+
+    def run():
+        try:
+            box['value'] = fn()
+        except BaseException as exc:       # noqa: re-raised in the caller
+            box['exc'] = exc
+    t = threading.Thread(target=run)
+    t.start()
+    t.join()
+    if 'exc' in box:
+        raise box['exc']
+    return box.get('value')
+
+
 def execute(case):
     res = Result()
     spec = case['spec']
@@ -184,7 +204,12 @@ def execute(case):
                         res.skipped_ops += 1
                         continue
                 mark = st.fs.mark()
-                got, exc, eo = ops.try_op(lambda: ops.do_op(tf, w, op))
+                op_ = {k: v for k, v in op.items() if k != 'thread'}
+                if op.get('thread'):
+                    res.probe('index-from-another-thread')
+                    got, exc, eo = ops.try_op(lambda: in_thread(lambda: ops.do_op(tf, w, op_)))
+                else:
+                    got, exc, eo = ops.try_op(lambda: ops.do_op(tf, w, op_))
                 reads = st.fs.reads_since(mark)
                 calls = st.fs.read_calls_since(mark)
                 res.steps += 1
